@@ -567,6 +567,10 @@ class Kernel:
         if m.endswith("_mut") and m not in ("iter_mut", "as_mut", "get_mut", "index_mut", "column_mut", "row_mut", "borrow_mut", "as_mut_ptr", "as_mut_slice", "last_mut", "first_mut",
                                             "column_iter_mut", "row_iter_mut", "deref_mut", "rows_mut", "columns_mut", "view_mut", "slice_mut", "fixed_rows_mut", "fixed_columns_mut"):
             self.emit(("whole", recv), ("call", m, recv, args), kind="inplace")
+            # ... and an argument handed over as `&mut Y` is transformed in place too (`a.lu().solve_mut(&mut out)`)
+            for raw, a in zip(e[4], args):
+                if is_node(raw) and raw[0] == "ref" and raw[1]:
+                    self.emit(("whole", a), ("call", m, recv, args), kind="inplace")
             return ("unit",)
         # an unknown method handed `&mut X`: X is transformed in place (its previous value feeds its new one)
         for raw, a in zip(e[4], args):
